@@ -36,6 +36,7 @@ type Plan struct {
 	CloseAfter    int    `json:"close_after"`
 	CtorCancelled bool   `json:"ctor_cancelled,omitempty"`
 	SrcGap        int    `json:"src_gap,omitempty"`
+	CloseDelay    int    `json:"close_delay,omitempty"` // ms the source's Close takes
 }
 
 func genPlan(streamKind bool) func(t *rapid.T) Plan {
@@ -51,6 +52,7 @@ func genPlan(streamKind bool) func(t *rapid.T) Plan {
 		p.Lat = rapid.SampledFrom([]string{"zero", "desc", "desc", "head", "head", "random"}).Draw(t, "lat")
 		p.Pace = rapid.SliceOfN(rapid.SampledFrom([]int{0, 0, 0, 5, 50, 2000}), 1, 4).Draw(t, "pace")
 		p.SrcGap = rapid.SampledFrom([]int{0, 0, 3}).Draw(t, "srcgap")
+		p.CloseDelay = rapid.SampledFrom([]int{0, 0, 5}).Draw(t, "closedelay")
 		if streamKind {
 			if rapid.IntRange(0, 3).Draw(t, "srcerr") == 0 {
 				p.SrcErrAt = rapid.IntRange(0, p.Len).Draw(t, "srcerrat")
@@ -203,6 +205,7 @@ func run(p Plan) (vk.Outcome, error) {
 			}
 			src := sk.NewRecStream("src", items)
 			src.Gaps = gaps
+			src.CloseDelay = time.Duration(p.CloseDelay) * time.Millisecond
 			srcE := sk.NewSentinel("src-error")
 			if p.SrcErrAt >= 0 {
 				src.FinalAt, src.Final = p.SrcErrAt, srcE
